@@ -51,6 +51,73 @@ def scenarios(e0, quick):
     return out[:6] if quick else out
 
 
+def scenarios3(e0):
+    """triples over the same prior state: three writers, one of them stopped half-way"""
+    P = lambda name, uid, summ, rep=None: ["put", name, "text/calendar", body(uid, summ), rep]
+    return [
+        ("three-conditional-writers-same-etag", [P("a.ics", "ua", "A", e0), P("a.ics", "ua", "B", e0), ["del", "a.ics", e0]]),
+        ("three-creates-one-uid", [P("b.ics", "dup", "b"), P("c.ics", "dup", "c"), P("e.ics", "dup", "e")]),
+        ("update-create-delete", [P("a.ics", "ua", "A"), P("b.ics", "ub", "b"), ["del", "d.ics", None]]),
+        ("create-steal-delete", [P("b.ics", "ud", "steals"), ["del", "d.ics", None], P("c.ics", "ud", "steals too")]),
+    ]
+
+
+def three_writers(chk, quick):
+    """threads of one process, three operations: the first is stopped at each of its yield points while
+    the two others are started; the outcome must be that of one of the six sequential orders, and the
+    model, run in the order in which the operations completed, must give the same results and members"""
+    for kind in ("tree", "bare"):
+        root, path, pre = setup(kind)
+        shutil.rmtree(root, ignore_errors=True)
+        e0 = pre["a.ics"]
+        for label, ops0 in scenarios3(e0)[:(2 if quick else 4)]:
+            for rot in range(1 if quick else 3):
+                ops = ops0[rot:] + ops0[:rot]
+                root, path, _ = setup(kind)
+                try:
+                    w = concdrv.Worker(concdrv.open_store(kind, path), ops[0], None)
+                    w.start()
+                    w.done.wait(60)
+                    pts = list(w.points)
+                finally:
+                    shutil.rmtree(root, ignore_errors=True)
+                seq = None
+                for i in ([None] if not pts else range(len(pts))):
+                    root, path, pre = setup(kind)
+                    try:
+                        st = concdrv.open_store(kind, path)
+                        r = concdrv.thread_schedule_n(st, ops, i)
+                        final = concdrv.contents(concdrv.open_store(kind, path))
+                    finally:
+                        shutil.rmtree(root, ignore_errors=True)
+                    res = [canon(x) for x in r["results"]]
+                    point = pts[i] if i is not None else "none"
+                    chk.count("schedules:threads-3:" + kind)
+                    chk.case(("threads-3", kind, label, rot, i), nontrivial=True)
+                    if seq is None:
+                        seq = sequential_outcomes(kind, ops, (0, 1, 2))
+                    ok = any(all(sres.get(j) == res[j] for j in (0, 1, 2)) and sfinal == final for (_o, sres, sfinal) in seq)
+                    rep = {"level": "store", "mode": "threads", "backend": kind, "scenario": label, "ops": ops,
+                           "A_paused_at": point, "results": res, "order_of_completion": r["order"], "final": final,
+                           "prior": pre, "sequential_outcomes": [[list(o), sr, sf] for o, sr, sf in seq]}
+                    if not ok:
+                        chk.violation(f"C05:not-serialisable:threads:{kind}:three-writers",
+                                      f"threads, {kind} store, {label}: first operation stopped at '{point}', the two others "
+                                      f"started, then resumed: results {res}, members {sorted(final)} — none of the six "
+                                      f"sequential orders gives this", rep)
+                    lines = model_lines({"a.ics": "ua", "d.ics": "ud"}, pre, ops)
+                    lines.append("qrun threads %s %s" % (kind, ",".join(map(str, r["order"]))))
+                    out = run_driver("conc", lines)[-1]
+                    want = "res=%s final==%s ser=%s" % (
+                        ";".join(x if not x.startswith("failed") else "failed" for x in res),
+                        ",".join("%s:%s" % (penc(n), penc(e)) for n, e in sorted(final.items())), "1" if ok else "0")
+                    chk.count("model-schedules-compared")
+                    if out != want:
+                        chk.broke(f"correspondence concurrency model (threads, {kind}, three writers)",
+                                  f"{label}: first stopped at '{point}': the code gives `{want}`, the model `{out}`", rep)
+            chk.traces_validated += 1
+
+
 def setup(kind):
     root = scratch_dir()
     path = os.path.join(root, "c")
@@ -178,10 +245,12 @@ def run(chk):
                             chk.broke(f"correspondence concurrency model ({mode}, {kind})",
                                       f"{label}: A stopped at '{point}': the code gives `{want}`, the model `{out}`", rep)
                 chk.traces_validated += 1
+    three_writers(chk, quick)
     http_threads(chk, quick)
     chk.assumptions.append("pre-emption is explored at the yield points between the phases of an operation; inside one "
                            "phase (a dulwich call, a file rename) operations are taken as atomic; two operations per "
-                           "schedule, one pre-emption")
+                           "schedule with one pre-emption (threads and processes), three operations with the first "
+                           "pre-empted (threads)")
 
 
 def http_pairs(e0_quoted):
